@@ -389,6 +389,11 @@ func prelude(cold bool, warm int) {
 }
 
 func (c *mergeCtx) check(cfg simrt.Config) ([]mismatch, simrt.Stats, string) {
+	mm, st, summary := c.check0(cfg)
+	return settleAborted([]string{"C07", "C12"}, c.wl.Variant == "concurrent", mm, st), st, summary
+}
+
+func (c *mergeCtx) check0(cfg simrt.Config) ([]mismatch, simrt.Stats, string) {
 	var mm []mismatch
 	add := func(prop, class, f string, a ...any) {
 		mm = append(mm, mismatch{prop, class, "", fmt.Sprintf(f, a...)})
